@@ -457,8 +457,8 @@ def check_rewritten(res, prog, m, g, steps, where, operands, info, ir=None, car_
             hist[t] = hist.get(t, 0) + 1
         if nt:
             nnt += 1
-        if (res.evaluations + n) % 4099 == 1:
-            res.sample(case_of(prog, steps, where, d, car, ir), nt=nt)
+        if (res.evaluations + n) % 997 == 1:
+            res.maybe_sample(case_of(prog, steps, where, d, car, ir), nt=nt)
         if o0[0] == 'x':
             hist['orig-raises'] = hist.get('orig-raises', 0) + 1
         if o0[:2] == o1[:2]:
@@ -991,8 +991,8 @@ def arith_case(res, op, rewrite, a_specs, b_spec, where, rng, cap, only=None):
             res.nontrivial()
             if any(isinstance(d, str) and d in (NAN, PINF, NINF) for d in t):
                 res.cls('arith:special-operand')
-            if res.evaluations % 4099 == 3:
-                res.sample(dict(base, operands=[G.enc_operand(d) for d in t]), nt=True)
+            if res.evaluations % 997 == 3:
+                res.maybe_sample(dict(base, operands=[G.enc_operand(d) for d in t]), nt=True)
             if o0[:2] == o1[:2]:
                 continue
             # which member of the claimed identity is not one
